@@ -176,21 +176,27 @@ func runC06(r *rng, n int) {
 	var ms runtime.MemStats
 	runtime.ReadMemStats(&ms)
 	prevAlloc := ms.TotalAlloc
-	xhangs := map[int]int{}
-	for _, name := range strings.Split(os.Getenv("C06_XDONE"), ",") { // entry points whose budget was used up by an earlier child of this range
-		if name != "" {
-			xhangs[epIndex(name)] = 1 << 30
+	// inputs of a class that is expected to kill the process (xhang, xbig): only the first C06_XBUDGET of them per entry
+	// point within the parent's ORIGINAL range [C06_LO, C06_TO) are run — decided by job index, independent of restarts
+	expensive := func(j c06job) bool { return strings.Contains(j.flags, "xhang") || strings.Contains(j.flags, "xbig") }
+	allowed := map[int]bool{}
+	{
+		seen := map[int]int{}
+		for i := envInt("C06_LO", from); i < to && i < len(jobs); i++ {
+			if i >= 0 && expensive(jobs[i]) {
+				seen[jobs[i].ep]++
+				if seen[jobs[i].ep] <= xhangBudget {
+					allowed[i] = true
+				}
+			}
 		}
 	}
 	for i := from; i < to; i++ {
 		j := jobs[i]
 		ep := c06eps[j.ep]
-		if strings.Contains(j.flags, "xhang") || strings.Contains(j.flags, "xbig") {
-			xhangs[j.ep]++
-			if xhangs[j.ep] > xhangBudget && envInt("C06_ONLY", -1) < 0 {
-				put(fmt.Sprintf("X %d %s %s %s\n", i, ep.name, j.in.class, j.flags))
-				continue
-			}
+		if expensive(j) && !allowed[i] && envInt("C06_ONLY", -1) < 0 {
+			put(fmt.Sprintf("X %d %s %s %s\n", i, ep.name, j.in.class, j.flags))
+			continue
 		}
 		buf := g.place(j.in.b)
 		put(fmt.Sprintf("S %d\n", i))
